@@ -13,7 +13,12 @@ EXTRA = {
  "C08-nil-holes-in-arrays": ["C04"],
  # round 2
  "C08b-calls-leak-on-panic": ["C07"], "C15b-shared-index-cell": ["C02"], "C16b-array-literal-constants": ["C01"], "C19b-keys-via-sort-helper": ["C16"],
- "C14b-constant-pool-by-text": ["C01"], "C06b-stale-lastop": ["C18"], "C07b-fields-survive-nil-object": ["C04"], "C04b-shared-map-converted-once": ["C07"],
+ "C14b-constant-pool-by-text": ["C01"],
+ # round 3
+ "C02c-scope-store-recycled": ["C06", "C07"], "C08c-regcache-write-under-rlock": ["C11"], "C15c-set-walks-outermost-first": ["C06"], "C03c-deadcode-past-jump": ["C18"],
+ "C18c-deadcode-past-jump": ["C03"], "C05c-empty-then-no-jump": ["C02"], "C06c-scope-store-recycled": ["C07"], "C07c-scope-store-recycled": ["C06"],
+ "C12c-slash-after-rsquare": ["C14"], "C14c-constant-pool-float-compare": ["C01"], "C16c-float-hashkey-32bit": ["C01"], "C17c-float-inspect-exponent": ["C01"],
+ "C04c-fields-kept-by-type": ["C07"], "C08c-calls-leak-on-error": ["C07"], "C19c-integer-key-order-cycle": ["C16"], "C06b-stale-lastop": ["C18"], "C07b-fields-survive-nil-object": ["C04"], "C04b-shared-map-converted-once": ["C07"],
 }
 pref = sys.argv[1] if len(sys.argv) > 1 else ""
 rows = []
